@@ -56,7 +56,8 @@ func calleeName(c ssa.CallInstruction) string {
 	if f := cc.StaticCallee(); f != nil {
 		n := fnName(f)
 		// the module's own generic membership helper and the standard library's are the same predicate
-		if n == "ngo/internal/slices.Contains" {
+		// (ContainsAny is the same loop over []any with interface equality: slices.Contains instantiated at any)
+		if n == "ngo/internal/slices.Contains" || n == "ngo/internal/slices.ContainsAny" {
 			return "slices.Contains"
 		}
 		return n
